@@ -61,6 +61,19 @@ pub const QUERIES: &[&str] = &[
     "string(/r/t)",
     "//*[@x = 'a b c']",
     "//*[. = 'xa\tb\ncy']",
+    // the order of the attribute axis (written and defaulted attributes)
+    "name(//@*[1])",
+    "name(/r/@*[last()])",
+    "name(//b/@*[2])",
+    "string(//b/@*[7])",
+    // filter expressions and steps whose predicate leaves no node, then the context stacks
+    "(//a)[@none]",
+    "(//a)[false()]",
+    "//*[(b)[@none]]",
+    "(//none)[1]",
+    "(//a)[1][2]",
+    "//a[@none][1]",
+    "(//*)[position() > 99][1]",
     // uses of the caller's bindings
     "//p:a",
     "count(//p:*)",
@@ -73,6 +86,14 @@ fn doc_state(doc: &XmlDocument) -> String {
         if let XmlNode::Element(e) = n {
             if let Some(attrs) = e.attributes() {
                 let mut v: Vec<String> = attrs.iter().map(|a| format!("{}#{}@{}", a.as_node(), a.as_node().id(), a.as_node().order())).collect();
+                // the order in which the map lists the attributes is the implementation's choice, but one choice:
+                // two parses, and two reads of one document, list them alike (attribute axis, item(i))
+                let listed: Vec<String> = attrs.iter().map(|a| a.as_node().node_name()).collect();
+                let again: Vec<String> = e.attributes().map(|m| m.iter().map(|a| a.as_node().node_name()).collect()).unwrap_or_default();
+                out.push_str(&format!("listed[{}]", listed.join(" ")));
+                if again != listed {
+                    out.push_str(&format!("second-read[{}]", again.join(" ")));
+                }
                 v.sort();
                 out.push_str(&v.join(","));
             }
@@ -285,7 +306,27 @@ fn seq_docs() -> Vec<ADoc> {
         vec![e("t", vec![], vec![tx("x"), ANode::EntRef("e".into()), tx("y")]), e("a", vec![atp("x", vec![Part::EntRef("e".into())])], vec![])],
     ));
     ent.doctype = Some(ADoctype { name: "r".into(), public: None, system: None, decls: vec![ADecl::Entity { name: "e".into(), value: vec![Part::Text("a\tb\nc".into())] }], subset: true });
-    vec![d[0].clone(), d[7].clone(), d[3].clone(), ent]
+    vec![d[0].clone(), d[7].clone(), d[3].clone(), ent, many_defaults()]
+}
+
+/// eight attributes defaulted from the DTD on one element, two of them written: the order in which they are listed
+/// (attribute axis, `@*[1]`, `@*[last()]`) must be the same on every read
+fn many_defaults() -> ADoc {
+    use crate::model::adoc::*;
+    let mut dd = doc(el("r", vec![at("d3", "w"), at("z", "1")], vec![e("a", vec![], vec![tx("t")]), e("b", vec![at("d6", "w")], vec![])]));
+    let defs = |n: usize| -> Vec<AAttDef> {
+        (1..=n)
+            .map(|i| AAttDef { name: format!("d{}", i), ty: "CDATA".into(), default: ADefault::Value { fixed: i % 3 == 0 && i != 3 && i != 6, value: vec![Part::Text(format!("v{}", i))] } })
+            .collect()
+    };
+    dd.doctype = Some(ADoctype {
+        name: "r".into(),
+        public: None,
+        system: None,
+        decls: vec![ADecl::AttList { elem: "r".into(), defs: defs(8) }, ADecl::AttList { elem: "b".into(), defs: defs(8) }],
+        subset: true,
+    });
+    dd
 }
 
 impl Check for C19C {
@@ -305,6 +346,7 @@ impl Check for C19C {
                     docs.push(crate::model::gen::apply(&s, &[&d]));
                 }
             }
+            docs.push(many_defaults());
             return Box::new(ParseTwice { docs });
         }
         let bindings: Vec<Bindings> = vec![vec![], vec![(Some("p".into()), "v".into()), (Some("q".into()), "none".into()), (None, "u".into())]];
@@ -315,9 +357,9 @@ impl Check for C19C {
     }
     fn meta(&self) -> Meta {
         Meta {
-            rule: "stage sequences: ALL sequences of length <= n over a pool of 48 queries (node-set, scalar, positional and nested-predicate queries; queries that fail inside a predicate, a filter, a function argument or a nested predicate — unknown function, wrong arity, count(1), unbound prefix, variable, type error in a union —; failures at the top level and syntax errors; queries using the caller's bindings) issued against ONE document object and ONE evaluation context (with and without namespace bindings): every query's answer must equal its answer on a fresh parse with a fresh context (in particular top-level position()/last() and positional predicates after a failed query), and the document's serialization, node ids and order keys must be identical before and after. Stage parse-twice: every document of the XPath universe and every singly decorated document of the C01 universe is parsed twice: equal outcome, serialization, PartialEq, infoset dump and DOM state. Non-trivial = the query returned a value.",
-            bounds_quick: "sequences of length <= 3 (112,944) x 4 documents x 2 binding sets",
-            bounds_thorough: "sequences of length <= 4 (5,421,360) x 4 documents x 2 binding sets",
+            rule: "stage sequences: ALL sequences of length <= n over a pool of 59 queries (node-set, scalar, positional and nested-predicate queries; queries that fail inside a predicate, a filter, a function argument or a nested predicate — unknown function, wrong arity, count(1), unbound prefix, variable, type error in a union —; failures at the top level and syntax errors; queries using the caller's bindings) issued against ONE document object and ONE evaluation context (with and without namespace bindings): every query's answer must equal its answer on a fresh parse with a fresh context (in particular top-level position()/last() and positional predicates after a failed query), and the document's serialization, node ids and order keys must be identical before and after. Stage parse-twice: every document of the XPath universe and every singly decorated document of the C01 universe is parsed twice: equal outcome, serialization, PartialEq, infoset dump and DOM state. Non-trivial = the query returned a value.",
+            bounds_quick: "sequences of length <= 3 (208,919) x 5 documents x 2 binding sets",
+            bounds_thorough: "sequences of length <= 4 (12,326,280) x 5 documents x 2 binding sets",
             assumptions: &["one document object is shared by all sequences of a worker (so a document mutated by any query is noticed by a later state comparison)"],
             unbounded_total: false,
         }
